@@ -57,6 +57,7 @@ P(size, from, desc) == [size |-> size, from |-> from, desc |-> desc]
 PagesOne   == { P(10, 0, FALSE) }
 PagesTwo   == { P(10, 0, FALSE), P(1, 1, TRUE) }
 PagesQuick == { P(10, 0, FALSE), P(1, 0, FALSE), P(1, 1, TRUE), P(0, 0, FALSE) }
+PagesThree == { P(10, 0, FALSE), P(1, 1, TRUE), P(2, 1, FALSE) }
 PagesFull  == { P(10, 0, FALSE), P(1, 0, FALSE), P(1, 1, TRUE), P(0, 0, FALSE), P(2, 1, FALSE), P(1, 2, TRUE) }
 
 VARIABLES docs,   \* d -> [m : matched by the query, vals : SUBSET Vals]
